@@ -53,7 +53,8 @@ Inductive err :=
 | BadArgs (f : string)            (* arity / type mismatch at a call *)
 | BadRet (f : string)             (* return value of the wrong kind, or control fell off the end *)
 | NegSize (a : string)            (* local array of negative length *)
-| NoExt (f : string).             (* libm function without an interpretation in this instance *)
+| NoExt (f : string)              (* libm function without an interpretation in this instance *)
+| Overflow (w32 : bool) (z : Z).  (* [IChk]: a signed int (w32) / long long result that does not fit (UB in C) *)
 
 Inductive result (A : Type) := Ok (a : A) | Err (e : err).
 Arguments Ok {A}. Arguments Err {A}.
@@ -91,6 +92,7 @@ Inductive iexp :=
 | ITrunc (w : width) (f : fexp)      (* (int)x, (long long)x *)
 | IFloor (w : width) (f : fexp)      (* (long long)floor(x) *)
 | IIsnan (f : fexp)
+| IChk (w : width) (e : iexp)        (* overflow-checked programs only (Gen/KernelsAstChk.v): the value of e must fit w *)
 with fexp :=
 | FLit (b : float) (num : Z) (den : positive)   (* binary64 value; exact decimal value num/den *)
 | FNan                                (* the idiom  static zero = 0.0; 1./zero*zero  or  zero/zero *)
@@ -320,6 +322,9 @@ Fixpoint eval_i (st : state) (e : iexp) {struct e} : result Z :=
   | ITrunc w f => do v <- eval_f st f; sem_cast w (ntrunc N v)
   | IFloor w f => do v <- eval_f st f; sem_cast w (nfloor N v)
   | IIsnan f => do v <- eval_f st f; Ok (b2z (nisnan N v))
+  | IChk w a => do v <- eval_i st a;
+                if in_width w v then Ok v
+                else Err (Overflow (match w with W32 => true | W64 => false end) v)
   end
 with eval_f (st : state) (e : fexp) {struct e} : result T :=
   match e with
